@@ -151,6 +151,7 @@ func checkC15(p *Prog, r *Report) {
 	r.rule("C15.G2", "postProcess re-arms its die arm after every processed item on every path and returns on die only when chPostProcessing is empty", 2)
 	r.rule("C15.G3", "the periodic update callback is re-submitted only on the not-closed arm", 1)
 	r.rule("C15.G4", "UDPSession.Close (no listener, owned conn) and Listener.Close (owned conn) close the transport", 2)
+	r.rule("C15.G11", "closing terminates the goroutines in any order: no lock is re-acquired while held and no lock-order cycle exists (= C13.W12) — a receive goroutine that closes sessions under the table's read lock blocks on the write lock Close takes, and never ends", 1)
 	r.rule("C15.G10", "a session that was started is either handed to the caller or closed: in every function other than the listener's dispatcher that calls newUDPSession (Dial*, NewConn*), no path from the call reaches a return that does not return the session without closing it — its goroutines and its scheduled callback are already running and nobody else holds a reference", 1)
 	r.rule("C15.G9", "the first Close always releases what keeps goroutines alive: on every path of UDPSession.Close that is not the 'already closed' return, the dispatch on s.l is reached, its listener arm calls closeSession and its client arm reaches the ownConn test whose true arm calls conn.Close() — an early return before it (whatever error it reports) leaves the receive goroutine blocked in ReadFrom and the socket open for good", 1)
 	r.rule("C15.G8", "a session leaves the listener's table only by being closed: the functions that delete from Listener.sessions are called from UDPSession.Close alone, and a store into the table that can replace an existing session is preceded on every such path by Close of the session found — otherwise the replaced session's goroutine, timer task, queues and blocked readers stay behind for good (one per datagram)", 2)
@@ -356,6 +357,7 @@ func checkC15(p *Prog, r *Report) {
 	checkSessionsLeaveByClose(p, r, "C15.G8")
 	checkCloseReleases(p, r)
 	checkStartedSessionsReturned(p, r)
+	checkLockOrder(p, r, "C15.G11")
 	checkBoundedSends(p, r)
 }
 
@@ -1149,6 +1151,52 @@ func checkUpdateResubmit(p *Prog, r *Report) {
 	})
 	if n == 0 && fi != nil {
 		r.bad("C15.G3", fi.Name, p.Pos(fi.Node), "re-submission", "update does not re-submit itself", "")
+	}
+	checkUpdateAlwaysRearms(p, r, "C15.G3")
+}
+
+// checkUpdateAlwaysRearms: the other half — while the session is open the updater never stops: every path through
+// update that does not take the die arm re-submits the callback. (A path that returns early on some other condition —
+// a latched socket error, an idle connection — ends retransmission, acknowledgement and probing for good.)
+// Shared by C15.G3 and C02.A18.
+func checkUpdateAlwaysRearms(p *Prog, r *Report, rule string) {
+	fi := p.FuncByName("(*UDPSession).update")
+	if fi == nil {
+		return
+	}
+	c := p.CFG(fi)
+	putM := p.Method("TimedSched", "Put")
+	isPut := func(nd ast.Node, _ Point) bool {
+		hit := false
+		inspectShallow(nd, func(x ast.Node) bool {
+			if call, ok := x.(*ast.CallExpr); ok && p.Callee(call) == putM {
+				hit = true
+			}
+			return true
+		})
+		return hit
+	}
+	// the die arm(s): select clauses receiving from die, and branches on isClosed()
+	dieBlocks := map[*cfg.Block]bool{}
+	for _, b := range c.live {
+		if cc, ok := b.Stmt.(*ast.CommClause); ok && b.Kind == cfg.KindSelectCaseBody {
+			if ch, isSend := commChan(p, cc); ch != nil && !isSend && ch.Op == "fld" && ch.Obj.Name() == "die" {
+				dieBlocks[b] = true
+			}
+		}
+		if ct := c.CondTerm(b); ct != nil && len(b.Succs) == 2 && strings.Contains(ct.Key(), "isClosed") {
+			if ct.Op == "not" {
+				dieBlocks[b.Succs[1]] = true
+			} else {
+				dieBlocks[b.Succs[0]] = true
+			}
+		}
+	}
+	res := c.FindPath(PathQuery{From: Point{c.Entry(), 0}, ExitIsTarget: true, IsBarrier: isPut, OnBlock: func(b *cfg.Block) (bool, bool) { return false, dieBlocks[b] }})
+	if res.Found {
+		r.bad(rule, fi.Name, p.Pos(fi.Node), "update re-arms itself while the session is open", "a path through update returns without re-submitting the callback although the session was not closed: from then on nothing retransmits, acknowledges or probes for this session — data already accepted by Write is never delivered", c.DescribePath(res.Path))
+	} else {
+		r.ok(rule, fi.Name, p.Pos(fi.Node), "update re-arms itself while the session is open", "every path that does not take the die arm re-submits the callback")
 	}
 }
 
